@@ -283,6 +283,8 @@ class AsyncClient(base_client.BaseClient):
         await self._trigger_event('connect', run_async=False)
 
         for pkt in p.packets[1:]:
+            if self.state != 'connected':
+                break
             await self._receive_packet(pkt)
 
         if 'websocket' in self.upgrades and 'websocket' in self.transports:
@@ -571,6 +573,8 @@ class AsyncClient(base_client.BaseClient):
                 await self.queue.put(None)
                 break
             for pkt in p.packets:
+                if self.state != 'connected':
+                    break
                 await self._receive_packet(pkt)
 
         if self.write_loop_task:  # pragma: no branch
